@@ -50,7 +50,7 @@ func genScenarios(r *rng) []*scenario {
 			for _, ty := range []string{"Update", "Delete", "Accept", "Undo"} {
 				for i := 0; i < *pubN; i++ {
 					k++
-					sc := genInbox(r, ty, k)
+					sc := genInboxF(r, ty, k, true)
 					sc.Family = "authority:" + ty
 					out = append(out, sc)
 				}
